@@ -303,19 +303,21 @@ ssize_t
 qb_ipcc_sendv(struct qb_ipcc_connection * c, const struct iovec * iov,
 	      size_t iov_len)
 {
-	int32_t total_size = 0;
-	int32_t i;
+	size_t total_size = 0;
+	size_t i;
 	int32_t res;
 	int32_t res2;
 
-	for (i = 0; i < iov_len; i++) {
-		total_size += iov[i].iov_len;
-	}
 	if (c == NULL) {
 		return -EINVAL;
 	}
-	if (total_size > c->request.max_msg_size) {
-		return -EMSGSIZE;
+	for (i = 0; i < iov_len; i++) {
+		/* compared element by element: a sum kept in 32 bits took a
+		 * message of 4 GiB + 16 bytes for one of 16 */
+		if (iov[i].iov_len > c->request.max_msg_size - total_size) {
+			return -EMSGSIZE;
+		}
+		total_size += iov[i].iov_len;
 	}
 
 	if (c->funcs.fc_get) {
